@@ -82,7 +82,37 @@ func (x *Exec) bigBytes(t *Term, n int) []*Term {
 		q := intBin(OpIDiv, a, pow256(n-1-i))
 		out[i] = mkInt2BV(intBin(OpIMod, q, mkIntI(256)), 8)
 	}
+	if n > 0 {
+		x.bigBytesMemo = append(x.bigBytesMemo, bigBytesRec{a: a, bs: append([]*Term{}, out...)})
+	}
 	return out
+}
+
+// bigBytesRec remembers the byte terms produced for |a| (a < 256^len(bs) on this
+// path), so that SetBytes of exactly those bytes gives back a instead of a
+// div/mod/int2bv chain the solver has to see through.
+type bigBytesRec struct {
+	a  *Term
+	bs []*Term
+}
+
+func (x *Exec) intOfBytesMemo(bs []*Term) *Term {
+	for _, r := range x.bigBytesMemo {
+		if len(r.bs) != len(bs) {
+			continue
+		}
+		same := true
+		for i := range bs {
+			if bs[i] != r.bs[i] {
+				same = false
+				break
+			}
+		}
+		if same {
+			return r.a
+		}
+	}
+	return intOfBytes(bs)
 }
 
 func intSign(t *Term) *Term {
@@ -164,7 +194,7 @@ func init() {
 		return x.bigSet(a[0], x.bigGet(a[1], "Set"), "Set")
 	}
 	I[B+"SetBytes"] = func(x *Exec, c *frame, fn *ssa.Function, a []Value) Value {
-		return x.bigSet(a[0], intOfBytes(sliceTerms(a[1].(Slice))), "SetBytes")
+		return x.bigSet(a[0], x.intOfBytesMemo(sliceTerms(a[1].(Slice))), "SetBytes")
 	}
 	I[B+"Bytes"] = func(x *Exec, c *frame, fn *ssa.Function, a []Value) Value {
 		t := x.bigGet(a[0], "Bytes")
@@ -204,6 +234,9 @@ func init() {
 		p, q := x.bigGet(a[1], "Mul"), x.bigGet(a[2], "Mul")
 		if p.isConst() || q.isConst() {
 			return x.bigSet(a[0], intBin(OpIMul, p, q), "Mul")
+		}
+		if t := smallMul(p, q); t != nil {
+			return x.bigSet(a[0], t, "Mul")
 		}
 		return x.bigSet(a[0], x.intUF("mul", p, q), "Mul")
 	}
@@ -335,6 +368,9 @@ func init() {
 				}
 			}
 		}
+		if t := smallExp(b, e, m); t != nil {
+			return x.bigSet(a[0], t, "Exp")
+		}
 		r := x.intUF("exp", b, e, m)
 		// contract of modular exponentiation: 0 <= result < |m| when m != 0
 		am := mkIAbs(m)
@@ -350,6 +386,12 @@ func init() {
 			}
 			return x.bigSet(a[0], mkInt(r), "ModInverse")
 		}
+		if val, inv, ok := smallModInverse(g, n); ok {
+			if !x.ps.decide(inv, "big-modinverse-exists") {
+				return nilPtr
+			}
+			return x.bigSet(a[0], val, "ModInverse")
+		}
 		return x.bigSet(a[0], x.intUF("modinverse", g, n), "ModInverse")
 	}
 	I[B+"ProbablyPrime"] = func(x *Exec, c *frame, fn *ssa.Function, a []Value) Value {
@@ -360,8 +402,12 @@ func init() {
 		return mkEq(x.intUF("probablyprime", t), mkIntI(1))
 	}
 	I[B+"SetString"] = func(x *Exec, c *frame, fn *ssa.Function, a []Value) Value {
-		s, ok := a[1].(*Str).concrete()
 		base, _ := concreteInt(a[2])
+		if st := a[1].(*Str); st.inj != nil && base == 10 {
+			// the decimal rendering of an Int term (big.Int.String) parses back to it
+			return Tuple{x.bigSet(a[0], st.inj, "SetString"), constTrue}
+		}
+		s, ok := a[1].(*Str).concrete()
 		if !ok {
 			panic(unsupported{"big.SetString of symbolic string"})
 		}
